@@ -63,6 +63,7 @@ add("C05", "e_cache", "exploration",
     "replaced by a controllable one (hook H3), and judges every lookup with a sequential model: nothing served once its lifetime has elapsed, reported TTL never above the time left, "
     "TTL-0 records never stored through SharedCache, no duplicates, every unexpired unevicted record returned with its data. What is still held after evictions is read from the read-only snapshot hook (H4). "
     "Resolver leg: a recursive resolution against a generated universe (fake network, hook H1), the same question a little later (no upstream exchange, TTLs reduced and never above the time left) and after the RRset's longest TTL (must be fetched again). "
+    "Alias leg: a question whose answer opens with a CNAME link learnt upstream is asked again once that link's TTL has elapsed (its target possibly still cached, nothing pruned): an answer that still opens with the link without an upstream exchange about the question name served it from the cache past its TTL. "
     "Thorough adds a Miri shard over short histories and a 2-thread run.",
     "Trusts the model and the clock hook (only Instant::now() inside cache.rs is replaced). Tolerance T3: a record in its last partial second may be missing. Sequential histories only; the threaded use is exercised under C15.",
     "DESIGN.md §6 C05")
@@ -116,7 +117,7 @@ add("C17", "e_text", "exploration",
 add("C01", "e_netsim", "exploration",
     "runtime monitoring: reference-model oracle + provenance tags + upstream exchange log (fake network, hook H1)",
     "Generated configurations (1..4 nested zones, authoritative and hosts-style, CNAMEs in/across/out of zones, wildcards, delegations, ENTs, blocklist entries), a cache pre-seeded with conflicting records "
-    "for the very names the zones own, and an upstream that answers every question with differently tagged data; every name x 9 qtypes in authoritative-only, recursive and forwarding mode through dns_resolver::resolve. "
+    "for the very names the zones own, with cache-only aliases pointing at zone-owned names (the cache also holding its own records for the target), and an upstream that answers every question with differently tagged data; every name x 9 qtypes in authoritative-only, recursive and forwarding mode through dns_resolver::resolve. "
     "The most specific zone (own computation) and the C02 reference lookup decide what must come back: exact records, AA + zone SOA, name error only from an authoritative zone, no upstream exchange for locally answered questions, "
     "delegated questions sent only to the delegation's servers; every returned record owned by an authoritative zone's name must be that zone's data (unique RDATA tags per source).",
     "Trusts the C02 reference model. T1 (no AA demanded once a chain leaves authoritative data), D1. Upstream in these runs never aliases into locally authoritative names in one reply (that acceptance is the business of C06).",
@@ -130,7 +131,7 @@ add("C06", "e_netsim", "exploration",
     "DESIGN.md §6 C06")
 add("C07", "e_netsim", "exploration",
     "runtime monitoring against generated DNS universes with fake authoritative servers (hook H1) and a globally computed expectation",
-    "Consistent hierarchies (2..12 zones, depth 1..5, 1..3 name servers per zone in-bailiwick with glue or hosted elsewhere with/without glue, v4/v6/dual hosts, ENT apexes, cross-zone alias chains up to 8 links) are served by RFC 1034 §4.3.2 fake servers through the transport hook; "
+    "Consistent hierarchies (2..12 zones, depth 1..5, 1..3 name servers per zone in-bailiwick with glue or hosted elsewhere with/without glue, v4/v6/dual hosts, ENT apexes, cross-zone alias chains up to 8 links, ladders of 17..22 glueless alias links, sibling zones hosting each other's only name server behind the parent's glue) are served by RFC 1034 §4.3.2 fake servers through the transport hook; "
     "sequences of 1..6 questions share one cache, in all four protocol modes. Each result must equal what the authoritative servers hold (alias chain in order, final RRset as a multiset with TTL <=, zone SOA for NODATA/NXDOMAIN); the exchange log must show strictly deeper zones for the user's question.",
     "Trusts the universe generator's consistency and its expectation function. T4 (one address per family per host, glue == authoritative data, CNAME-type questions may return any chain prefix). Cache clock frozen.",
     "DESIGN.md §6 C07")
